@@ -140,6 +140,11 @@ class ForOfIterator:
 class VM:
     """JavaScript virtual machine."""
 
+    # Script code called from native code (callbacks, accessors, conversions, call/apply,
+    # nested eval) recurses on the host stack; refuse to nest deeper than this so that
+    # runaway recursion ends in MemoryLimitError long before the host's own limit.
+    MAX_NATIVE_DEPTH = 100
+
     def __init__(
         self,
         memory_limit: Optional[int] = None,
@@ -161,6 +166,8 @@ class VM:
         self.exception_handlers: List[Tuple[int, int, int]] = []
         # call-stack depth at entry of each native -> script call still in progress
         self._native_bases: List[int] = []
+        # native nesting depth inherited from the VM that started this one (nested eval)
+        self.native_depth_offset = 0
 
     def run(self, compiled: CompiledFunction) -> JSValue:
         """Run compiled bytecode and return result."""
@@ -2340,6 +2347,7 @@ class VM:
     ) -> JSValue:
         """Call a callback function synchronously and return the result."""
         if isinstance(callback, JSFunction):
+            self.check_native_depth()
             # Remember where native code handed over to script code (see _throw)
             self._native_bases.append(len(self.call_stack))
             try:
@@ -2347,6 +2355,14 @@ class VM:
             finally:
                 self._native_bases.pop()
         return self._run_callback(callback, args, this_val)
+
+    def native_depth(self) -> int:
+        """How many native -> script calls are in progress on the host stack."""
+        return self.native_depth_offset + len(self._native_bases)
+
+    def check_native_depth(self) -> None:
+        if self.native_depth() >= self.MAX_NATIVE_DEPTH:
+            raise MemoryLimitError("Memory limit exceeded: native call depth")
 
     def _run_callback(
         self, callback: JSValue, args: List[JSValue], this_val: JSValue = None
